@@ -35,6 +35,10 @@ THEOREMS = [
     "Spec.File.expand_interp_length",
 ]
 
+THEOREMS_WRAPPED = [
+    "C01Wrapped.C01_wrapped_file",
+]
+
 # fixtures that are complete, well-formed problems (importance for every cell, no read cards, ASCII after cleaning)
 GOOD_FIXTURES = None  # decided at run time: those MontePy reads and writes
 
@@ -165,6 +169,8 @@ def run(chk):
         "harness tools/props/c01.py, tools/vlib/wholefile.py, tools/vlib/spec.py",
     ]
     leanio.prove(chk, "MontePyVerif.Props.C01Blocks", THEOREMS, "MontePyVerif")
+    # the composition with C10's wrapping theorem lives in a module of its own (it imports both)
+    leanio.prove(chk, "MontePyVerif.Props.C01Wrapped", THEOREMS_WRAPPED, "MontePyVerif")
     if chk.thorough:
         leanio.leanchecker(chk, ["MontePyVerif.Props.C01Blocks"])
     drv = leanio.Driver(chk, "drv_c01")
